@@ -868,8 +868,70 @@ func c15EveryLength(c *fw.Ctx, idx int) {
 	}
 }
 
+// c15LongJoints: a track of n vertices in unit steps whose every B-th segment is
+// 64 units long (B = 256, 500, 1000, 1024, 2048, 4096): a point one unit off the
+// middle of such a long segment is 1 away from the line and more than 32 away from
+// every vertex - block-wise scans that skip by bounding boxes of vertices must not
+// lose the joint between two blocks.
+func c15LongJoints(c *fw.Ctx, n int) {
+	r := c.R
+	B := []int{256, 500, 1000, 1024, 2048, 4096}[r.Intn(6)]
+	layout := []geom.Layout{geom.XY, geom.XYZ, geom.XYZM}[r.Intn(3)]
+	stride := layout.Stride()
+	// out along y = 8 in steps of 3, back along y = 3 in unit steps with the long
+	// joints: by the time the joint's block is reached the best distance so far is
+	// 4 (the outward leg), less than the joint's distance from any vertex
+	flat := make([]float64, n*stride)
+	xs := make([]float64, n)
+	h := n / 2
+	x := 0.0
+	for i := 0; i < n; i++ {
+		xs[i] = x
+		y := 8.0
+		if i >= h {
+			y = 3
+		}
+		flat[i*stride], flat[i*stride+1] = x, y
+		switch {
+		case i < h-1:
+			x += 3
+		case i == h-1:
+			// turn round: the return leg starts under the end of the outward leg
+		case (i+1)%B == 0:
+			x -= 64
+		default:
+			x--
+		}
+	}
+	for q := 0; q < 6; q++ {
+		k := r.Range(h/B+1, (n-1)/B)
+		j := k*B - 1 // segment j -> j+1 is a long one, on the return leg
+		if j+1 >= n || j < h {
+			continue
+		}
+		p := geom.Coord{(xs[j] + xs[j+1]) / 2, 4, math.NaN(), 2}[:stride]
+		if q%2 == 1 {
+			p[0] = xs[j] - float64(r.Range(20, 44))
+		}
+		c.SetInput(map[string]any{"line": fmt.Sprintf("out along y=8 in steps of 3, back along y=3 in unit steps, every %d-th segment 64 long", B), "vertices": n, "layout": layout.String(), "point": fw.Fs(p[:2]), "above_long_segment": j})
+		var got float64
+		if c.Guard("panic", func() { got = xy.DistanceFromPointToLineString(layout, p, flat) }) {
+			return
+		}
+		c.Eval(1)
+		c.Count("points_next_to_long_joints")
+		if !(math.Abs(got-1) <= 1e-9) {
+			c.Fail("wrong-distance", "xy.DistanceFromPointToLineString = %v for a point one unit off the 64-unit segment %d of a line of %d vertices (every %d-th segment is that long; exact distance 1, every vertex is more than 20 away)", got, j, n, B)
+			return
+		}
+	}
+}
+
 func c15Length(c *fw.Ctx, n int) {
 	r := c.R
+	if n > 9000 {
+		c15LongJoints(c, n)
+	}
 	for _, layout := range []geom.Layout{geom.XY, geom.XYZ, geom.XYZM} {
 		stride := layout.Stride()
 		flat := make([]float64, n*stride)
